@@ -347,6 +347,14 @@ def clause11_no_narrowing(ctx, P):
                 continue
             n += 1
             o = i.a[0]
+            # a value that was cut to a narrower integer on its way (an 'unsigned int seconds' between a 64-bit quotient and a
+            # 64-bit member) is just as lossy as a narrow member
+            hops = 0
+            while isinstance(o, int) and o >= f.nparams and f.insts[o].op in ("zext", "sext") and hops < 4:
+                o = f.insts[o].a[0]
+                hops += 1
+            if hops and isinstance(o, int) and o >= f.nparams and f.insts[o].op == "trunc" and f.insts[o].ty == "i1":
+                continue    # a bool on its way through a register
             if isinstance(o, int) and o >= f.nparams and f.insts[o].op == "trunc":
                 src = P.term(f, f.insts[o].a[0])
                 if src[0] != "const":
@@ -430,6 +438,44 @@ def clause12_valuestring(ctx, P):
         raise AnalysisBroken("uses of cJSON valuestring as a call argument: %d" % n)
 
 
+def clause11b_bitfield_copies(ctx, P):
+    """a bit-field that keeps a copy of another bit-field (the opcode of a fragmented message next to the opcode of the frame) is at
+    least as wide: the read-modify-write that stores member B masks the value to B's width, so a narrower B silently drops the top
+    bits of A (reserved opcodes 5 and 6 become 1 and 2)"""
+    n = 0
+    bad = None
+    for f in P.own_functions():
+        for i in f.all_insts():
+            if i.op != "store":
+                continue
+            d = P.term(f, i.a[1])
+            if d[0] != "field" or (d[2], d[3]) not in P.bitfields:
+                continue
+            v = P.term(f, i.a[0])
+            if not (v[0] == "op" and v[1] == "or" and v[2][0][0] == "op" and v[2][0][1] == "and" and v[2][0][2][0] == ("load", d)):
+                continue
+            ins = v[2][1]
+            sh = 0
+            if ins[0] == "op" and ins[1] == "shl" and ins[2][1][0] == "const":
+                sh = ins[2][1][1]
+                ins = ins[2][0]
+            if not (ins[0] == "op" and ins[1] == "and" and ins[2][1][0] == "const"):
+                continue
+            wb = bin(ins[2][1][1] & 0xFFFFFFFF).count("1")
+            src = ins[2][0]
+            a = Q.bitfield_of(P, src)
+            if a is None:
+                continue
+            wa = next((m["size_bits"] for m in P.bitfields.get((d[2], d[3]), []) if m["name"] == a[1]), None)
+            nb = P.bitfield_name(d[2], d[3], sh, (1 << wb) - 1)
+            n += 1
+            if wa is not None and wb < wa and bad is None:
+                bad = (f, i, a[1], wa, nb, wb)
+    ctx.ob("C06.8 R-BOUND", "own-structs", "bit-field-copies-keep-their-width", bad is None and n >= 1,
+           ("%s() copies the %d-bit member %s into the %d-bit member %s at %s: the upper bits are dropped without a trace" %
+            (bad[0].srcname, bad[3], bad[2], bad[5], bad[4], bad[1].loc)) if bad else "%d bit-field to bit-field copies keep their width" % n)
+
+
 # printf-like functions: name -> index of the format argument
 FORMATTED = {"printf": 0, "fprintf": 1, "dprintf": 1, "sprintf": 1, "snprintf": 2, "vprintf": 0, "vfprintf": 1, "vsprintf": 1, "vsnprintf": 2,
              "syslog": 1, "vsyslog": 1, "log_err": 0, "log_warn": 0, "log_info": 0, "log_peer_err": 1, "log_peer_info": 1}
@@ -509,6 +555,7 @@ def run(ctx):
         clause9_unmask(ctx, P)
         clause10_stack_arrays(ctx, P)
         clause11_no_narrowing(ctx, P)
+        clause11b_bitfield_copies(ctx, P)
         clause12_valuestring(ctx, P)
         clause13_format_strings(ctx, P)
         clause1_snprintf(ctx, P)
